@@ -184,7 +184,9 @@ class TorchTensor(_core.Tensor):
 
         with torch._subclasses.fake_tensor.unset_fake_temporarily():  # pylint: disable=protected-access
             # Disable any fake mode so calling detach() etc. will return a real tensor
-            tensor = self.raw.detach().cpu().contiguous()
+            # Materialize lazy conjugate / negative views (as numpy(force=True) does) so the
+            # bytes are the ones of the values numpy() reports
+            tensor = self.raw.detach().cpu().resolve_conj().resolve_neg().contiguous()
 
         if isinstance(tensor, torch._subclasses.fake_tensor.FakeTensor):  # pylint: disable=protected-access
             raise TypeError(
